@@ -100,7 +100,9 @@ type FuncContract struct {
 	NoSafety    bool
 	AllowPanic  Expr
 	MapAccess   []*Clause // must hold at every map read/write in the function
+	At          map[string][]*Clause // kind (append, return, go) -> must hold at every such instruction
 	AllocBound  Expr
+	Forbid      []ForbidRule
 	Sets        []GhostSet
 	Mode        string
 	Replay      string
@@ -108,6 +110,14 @@ type FuncContract struct {
 	Pkg         *types.Package
 	File        string
 	Line        int
+}
+
+// ForbidRule: calls to functions whose short name starts with Prefix are
+// forbidden in this function unless listed in Except.
+type ForbidRule struct {
+	Prefix string
+	Except []string
+	Props  []string
 }
 
 type PredDef struct {
@@ -488,7 +498,7 @@ func (p *parser) parsePrimary() Expr {
 
 var clauseKeywords = map[string]bool{
 	"func": true, "extern": true, "ensures_trusted": true, "props": true, "requires": true, "ensures": true, "modifies": true,
-	"pure": true, "functional": true, "trusted": true, "loop": true, "call": true, "allowpanic": true, "mapaccess": true, "allocbound": true, "set": true,
+	"pure": true, "functional": true, "trusted": true, "loop": true, "call": true, "allowpanic": true, "mapaccess": true, "at": true, "forbid": true, "allocbound": true, "set": true,
 	"pred": true, "fn": true, "axiom": true, "lemma": true, "ghost": true, "abstract": true,
 	"mode": true, "inline": true, "nosafety": true, "replay": true, "const": true, "package": true,
 }
@@ -545,6 +555,9 @@ func parseSpecFile(path string) (*SpecFile, error) {
 		}
 		// strip trailing comment
 		if i := strings.Index(trim, " //"); i >= 0 && !strings.Contains(trim[:i], "\"") {
+			trim = strings.TrimSpace(trim[:i])
+		}
+		if i := strings.Index(trim, " # "); i >= 0 && strings.Count(trim[:i], "\"")%2 == 0 {
 			trim = strings.TrimSpace(trim[:i])
 		}
 		f := strings.Fields(trim)
@@ -626,6 +639,31 @@ func parseSpecFile(path string) (*SpecFile, error) {
 				return nil, fail(c, "%v", err)
 			}
 			cur.MapAccess = append(cur.MapAccess, cl)
+		case "forbid":
+			// forbid PREFIX [except a, b, c]
+			f := strings.SplitN(c.rest, " except ", 2)
+			fr := ForbidRule{Prefix: strings.TrimSpace(f[0])}
+			if len(f) == 2 {
+				for _, x := range strings.Split(f[1], ",") {
+					fr.Except = append(fr.Except, strings.TrimSpace(x))
+				}
+			}
+			cur.Forbid = append(cur.Forbid, fr)
+		case "at":
+			// at KIND requires label: E
+			f := strings.Fields(c.rest)
+			if len(f) < 3 || f[1] != "requires" {
+				return nil, fail(c, "at KIND requires ... expected")
+			}
+			body := strings.TrimSpace(strings.TrimPrefix(strings.TrimSpace(strings.TrimPrefix(c.rest, f[0])), "requires"))
+			cl, err := parseClause(body)
+			if err != nil {
+				return nil, fail(c, "%v", err)
+			}
+			if cur.At == nil {
+				cur.At = map[string][]*Clause{}
+			}
+			cur.At[f[0]] = append(cur.At[f[0]], cl)
 		case "allocbound":
 			e, err := parseExpr(c.rest)
 			if err != nil {
@@ -638,7 +676,7 @@ func parseSpecFile(path string) (*SpecFile, error) {
 				switch {
 				case part == "all":
 					cur.Modifies = append(cur.Modifies, ModTarget{Kind: "all"})
-				case part == "foreign" || part == "data":
+				case part == "foreign" || part == "data" || part == "maps":
 					cur.Modifies = append(cur.Modifies, ModTarget{Kind: part})
 				case part == "nothing":
 					if cur.Modifies == nil {
